@@ -18,7 +18,7 @@ import gevent
 from slimta.envelope import Envelope
 from slimta.relay import Relay
 
-from engine.core import Chooser, explore, stable_hash
+from engine.core import Chooser, explore, stable_hash, HarnessError
 from engine.result import Result
 from engine.vloop import World
 from engine import memfs
@@ -430,7 +430,16 @@ def check_restart(cfg, ch, res):
     from worlds.queue_world import QueueWorld
     wcfg = restart_cfg(cfg)
     qw = QueueWorld(ch, wcfg)
-    obs = qw.run()
+    try:
+        obs = qw.run()
+    except HarnessError as e:
+        if 'prestore failed' not in str(e):
+            raise
+        # DiskStorage.write() itself raised while the directory was being filled (over the in-memory FS)
+        res.evaluations += 1
+        res.violation({'kind': 'write-raised', 'during': 'restart'}, 'DiskStorage.write() raised while filling the queue directory: %s' % e,
+                      {'restart': {'store_pool': cfg['store_pool'], 'slow': cfg['slow']}, 'choices': ch.choices, 'hist': None, 'overlap': None, 'k': 0})
+        return ('write-raised',)
     res.evaluations += 1
     res.outcome(obs)
     if any(a['attempts'] > 0 for a in qw.attempts):
